@@ -26,6 +26,8 @@ M = [
  ("c06-transform-before-context", "src/subrule.rs", "                if !self.match_contexts_and_exceptions(&word, start, end, true)? {", "                if false && !self.match_contexts_and_exceptions(&word, start, end, true)? {", ["C06", "C03"]),
  ("c06-revert-ellipsis-fix", "src/subrule.rs", "REVERT:fix: elements after an ellipsis", "", ["C06"]),
  ("c07-var-captures-after-increment", "src/subrule.rs", "                self.variables.borrow_mut().insert(*v, VarKind::Segment(word.get_seg_at(*pos).unwrap()));\n            }\n            captures.push(MatchElement::Segment(*pos, None));", "                let mut p2 = *pos; p2.increment(word);\n                self.variables.borrow_mut().insert(*v, VarKind::Segment(word.get_seg_at(p2).unwrap_or(word.get_seg_at(*pos).unwrap())));\n            }\n            captures.push(MatchElement::Segment(*pos, None));", ["C07"]),
+ ("c06-revert-set-syll-fix", "src/subrule.rs", "REVERT:fix: a syllable inside an input set", "", ["C06"]),
+ ("c06-revert-syllvar-fix", "src/subrule.rs", "REVERT:fix: a syllable variable in the input", "", ["C06"]),
  ("c07-revert-structure-capture", "src/subrule.rs", "REVERT:fix: a structure in the input bound to a variable", "", ["C07", "C02"]),
  ("c08-empty-syllable-kept-after-deletion", "src/subrule.rs", "                            res_word.syllables[i.syll_index].segments.remove(i.seg_index);\n                            // if that was the only segment in that syllable, remove the syllable\n                            if res_word.syllables[i.syll_index].segments.is_empty() {", "                            res_word.syllables[i.syll_index].segments.remove(i.seg_index);\n                            // if that was the only segment in that syllable, remove the syllable\n                            if false && res_word.syllables[i.syll_index].segments.is_empty() {", ["C08"]),
  ("c08-tone-concat-not-capped", "src/subrule.rs", "        if nums.len() > 4 {\n            // Somehow meld", "        if nums.len() > 5 {\n            // Somehow meld", ["C08"]),
